@@ -165,16 +165,16 @@ def run(ctx):
                 bad("rescale_pseudopressure modified the caller's table", dict(p_frac=pf, p_i=pi2), "table differs")
             if abs(float(L(pf))) > 1e-12 or abs(float(L(pi2)) - 1) > 1e-12:
                 bad("rescaling does not map frac-face pressure to 0 and initial pressure to 1", dict(p_frac=pf, p_i=pi2, rows=len(p)), dict(at_frac=float(L(pf)), at_init=float(L(pi2))))
-    # ---------------- user-supplied diffusivity on a table whose pseudopressure starts at 0 (every table built by the library does),
-    # initial pressure inside the FIRST pressure interval: known finding K5 (m_i NaN); anything else that goes wrong there is reported
-    k5 = [e for e in core.known_findings(ID) if e["status"] == "known" and e.get("key") == "K5-user-alpha-first-interval"]
-    k5_hits = 0
+    # ---------------- user-supplied diffusivity on a table whose pseudopressure starts at 0 (every table built by the library does), with
+    # the initial pressure inside the FIRST pressure interval and elsewhere between nodes (fixed 2026-10, ecc8743: the factor used to be an
+    # interpolated reciprocal - infinite in the first interval): finite, strictly increasing, and m_i = 1 for every such p_i
     for k in range(4 if ctx.quick else 30):
         npts = int(rng.integers(4, 12))
         pk = np.cumsum(rng.uniform(5, 500, npts))
         mk = np.concatenate([[0.0], np.cumsum(rng.uniform(0.5, 50, npts - 1))])
         ak = rng.uniform(0.5, 5, npts)
-        for where, p_i5 in (("first interval", float(rng.uniform(pk[0] + 1e-6 * (pk[1] - pk[0]), pk[1] - 1e-6 * (pk[1] - pk[0])))), ("second interval", float(rng.uniform(pk[1], pk[2])))):
+        for where, p_i5 in (("first interval", float(rng.uniform(pk[0] + 1e-6 * (pk[1] - pk[0]), pk[1] - 1e-6 * (pk[1] - pk[0])))), ("second interval", float(rng.uniform(pk[1], pk[2]))),
+                            ("last interval", float(rng.uniform(pk[-2], pk[-1])))):
             ev += 1
             inp5 = dict(pressure=[float(x) for x in pk], pseudopressure=[float(x) for x in mk], alpha=[float(x) for x in ak], p_i=p_i5, p_i_in=where)
             with warnings.catch_warnings():
@@ -182,22 +182,18 @@ def run(ctx):
                 try:
                     fp5 = FlowProperties({"pressure": pk.copy(), "pseudopressure": mk.copy(), "alpha": ak.copy()}, p_i5)
                     mi5, ms5 = float(fp5.m_i), np.asarray(fp5.pvt_props["m-scaled"], float)
+                    at5 = float(fp5.m_scaled_func(p_i5))
                 except Exception as e:  # noqa: BLE001
                     bad("constructing the wrapper with user-supplied diffusivity fails for an initial pressure inside the table", inp5, repr(e)[:160])
                     continue
-            fine = math.isfinite(mi5) and np.all(np.isfinite(ms5)) and np.all(np.diff(ms5) > 0) and 1 - 1e-12 <= mi5
-            if where == "first interval" and not fine and k5 and math.isnan(mi5) and math.isnan(ms5[0]) and np.all(np.isinf(ms5[1:])):
-                k5_hits += 1
-            elif not fine:
-                bad("with user-supplied diffusivity the scaled pseudopressure is not finite / increasing / at least 1 at the initial pressure", inp5, dict(m_i=mi5, m_scaled_head=[float(x) for x in ms5[:3]]))
-    if k5:
-        w = k5[0]["witness"]
-        with warnings.catch_warnings():
-            warnings.simplefilter("ignore")
-            fpw = FlowProperties({"pressure": np.array(w["pressure"]), "pseudopressure": np.array(w["pseudopressure"]), "alpha": np.array(w["alpha"])}, w["p_i"])
-        if math.isnan(float(fpw.m_i)):
-            ctx.known_printed.append(k5[0]["line"])
-            ctx.notes.append(f"known finding K5 reproduced on its witness; {k5_hits} sampled constructions showed it")
+            # (what C09 states: finite, increasing, the value at p_i is the reported m_i, and m_i within linear-interpolation error above 1;
+            # that it is exactly 1 is C15's clause and is checked there)
+            j5 = int(np.searchsorted(pk, p_i5))
+            a5, b5 = mk[j5 - 1], mk[j5]
+            bound5 = (a5 + b5) ** 2 / (4 * a5 * b5) if a5 > 0 else math.inf
+            if not (math.isfinite(mi5) and np.all(np.isfinite(ms5)) and np.all(np.diff(ms5) > 0) and dom.relclose(at5, mi5, 1e-12) and 1 - 1e-12 <= mi5 <= bound5 * (1 + 1e-12)):
+                bad("with user-supplied diffusivity the scaled pseudopressure is not finite / increasing / within linear-interpolation error above 1 at the initial pressure", inp5,
+                    dict(m_i=mi5, at_p_i=at5, bound=bound5, m_scaled_head=[float(x) for x in ms5[:3]]))
     # ---------------- missing columns: all subsets of the six columns, both classes (exhaustive)
     base = rescorr.synth_table("ideal", 6)
     base["alpha"] = 1 / (base["compressibility"] * base["viscosity"])
